@@ -26,8 +26,8 @@ def tlc_cases(v, cfg, module="MCStmt.tla", tag="CASE", need=()):
 
 
 def _obs_job(job):
-    binary, packs, structured = job
-    res, runs = st.observe_pack(binary, packs, structured)
+    binary, packs, structured, macros = job
+    res, runs = st.observe_pack(binary, packs, structured, macros=macros or bl.DEFAULT_MACROS)
     bad = {}
     for name, r in runs.items():
         if r.exit_class in ("panic", "timeout", "signal", "killed"):
@@ -59,12 +59,14 @@ def classify_problem(r, text, structured):
         if s["dir"] == "nokvp":
             return "C14"
         if structured and ("token" in text or "key-value inserted" in text):
-            return "C13"
+            return ("C13", "C10")        # placement / terminator of the structured reference: both properties state it
+        if s["msg"] == "custom":
+            return ("C12", "C10")
         return "C10"
     return "C10"
 
 
-def make_packs(cases):
+def make_packs(cases, macroset=None):
     bymode = {"structured": [], "unstructured": []}
     for c in cases:
         bymode[c["mode"]].append(c)
@@ -75,16 +77,16 @@ def make_packs(cases):
             pk = st.Pack("p_%s_%d.rs" % (mode[0], i // PACK))
             for c in cs[i:i + PACK]:
                 uid += 1
-                pk.add(st.render_case(c, uid))
+                pk.add(st.render_case(c, uid, macroset=macroset))
             pk.finish()
             packs.append((pk, mode == "structured"))
     return packs
 
 
-def run_cases(binary, cases, v, props, label, sigextra=None, packs=None, relabel=None):
+def run_cases(binary, cases, v, props, label, sigextra=None, packs=None, relabel=None, macros=None):
     """Render, pack (per mode), execute, compare. Registers violations tagged with a property in `props`."""
     packs_all = packs if packs is not None else make_packs(cases)
-    jobs = [(binary, [pk], structured) for pk, structured in packs_all]
+    jobs = [(binary, [pk], structured, macros) for pk, structured in packs_all]
     procs = max(2, min(common.NCPU - 2, 14))
     if len(jobs) > 2:
         with multiprocessing.get_context("fork").Pool(procs) as pool:
@@ -107,10 +109,14 @@ def run_cases(binary, cases, v, props, label, sigextra=None, packs=None, relabel
             prop = classify_problem(r, text, structured)
             if relabel:
                 prop = relabel(prop, r, text)
+            plist = prop if isinstance(prop, tuple) else (prop,)
             oo = v.cov.setdefault("mismatches_by_property", {})
-            oo[prop] = oo.get(prop, 0) + 1
-            if prop not in props:
+            for p1 in plist:
+                oo[p1] = oo.get(p1, 0) + 1
+            hit = [p1 for p1 in plist if p1 in props]
+            if not hit:
                 continue
+            prop = hit[0]
             nprob += 1
             sig = {"check": "StatementOutcome", "family": label, "structured": structured}
             if r is not None:
@@ -165,6 +171,16 @@ def c11(tier):
                 pk.finish(tail=tail)
                 packs.append((pk, mode == "structured"))
     run_cases(binary, None, v, {"C11"}, "decoy", packs=packs)
+    # a configured set with several modules and a custom macro: names of one module under another module are decoys
+    macros = (("log", "info"), ("tracing", "warn"), ("my::logger", "error"))
+    mset = {"info": "log", "warn": "tracing", "error": "my::logger"}
+    cases2 = [c for c in cases if c["s"]["layout"] == "space" and c["s"]["context"] == "indent"]
+    extra = []
+    for c in cases2:
+        if c["s"]["head"] == "qualified":
+            s2 = dict(c["s"], head="crossmod")
+            extra.append(dict(c, s=s2, outcome="none", place="nowhere", ref=-1))
+    run_cases(binary, None, v, {"C11"}, "decoy-multimodule", packs=make_packs(cases2 + extra, macroset=mset), macros=macros)
     v.cov["rule"] = ("decoys (comments of three kinds, unconfigured / prefix / suffix / other-module names, no literal, no "
                      "arguments, macro text inside a string literal) enumerated by TLC together with real statements and packed in "
                      "enumeration order, plus files ending in a commented-out statement without trailing newline; distinct = record")
@@ -172,13 +188,14 @@ def c11(tier):
     return v.finish()
 
 
-SYM = {"sp": " ", "d": "\u0663", "R": "R", "x": "x"}
+SYM = {"sp": " ", "d": "\u0663", "R": "R", "x": "x", "tab": "\t", "nl": "\n", "bc": "/* c */", "lc": "// c\n"}
 
 
 def c12(tier):
     v = Verdict("C12", tier)
     toks = []
-    for cfg in (("intended/RefTokenT.cfg" if tier == "thorough" else "intended/RefTokenQ.cfg"), "intended/RefTokenB.cfg"):
+    for cfg in (("intended/RefTokenT.cfg" if tier == "thorough" else "intended/RefTokenQ.cfg"), "intended/RefTokenB.cfg",
+                "intended/RefTokenS.cfg"):
         toks += tlc_cases(v, cfg, module="MCRefToken.tla", tag="TOK")
     cases = []
     base = {"head": "bare", "target": "none", "kvs": [], "msg": "custom", "dir": "none", "trailing": "none",
